@@ -360,6 +360,35 @@ func c17(c *Ctx) {
 		}
 	}
 
+	c.R.Rule("R17.8", "AddOrUpdateNodes replaces a known node: the full node (with its neighbours) overwrites the placeholder a parent implied", 2,
+		"a revision whose node was first implied by a parent would trace no neighbours of its own: Resolve reports its dependencies satisfied although a transitive dependency is missing from the lock")
+	for _, typ := range []string{"MapDag", "MapUpgradingDag"} {
+		au := c.method(pkgDag, typ, "AddOrUpdateNodes")
+		if au == nil {
+			continue
+		}
+		var store *ssa.MapUpdate
+		for _, b := range au.Blocks {
+			for _, in := range b.Instrs {
+				if mu, ok := in.(*ssa.MapUpdate); ok && flow.Default.Any(mu.Map, func(v ssa.Value) bool { return isFieldSel(v, "dag."+typ, "nodes") }) {
+					store = mu
+				}
+			}
+		}
+		if store == nil {
+			c.R.Bad(load.FuncName(au)+": overwrites", c.pos(au.Pos()), "AddOrUpdateNodes never stores the supplied node over an existing one")
+			continue
+		}
+		l := cfgx.LoopOf(store.Block())
+		by := true
+		var w []string
+		if l != nil {
+			by, w = cfgx.LoopBypass(l, map[*ssa.BasicBlock]bool{store.Block(): true}, nil, c.posf())
+		}
+		isRanged := flow.Strict.Any(store.Value, func(v ssa.Value) bool { _, ok := v.(*ssa.Range); return ok }) || flow.Strict.Any(store.Value, func(v ssa.Value) bool { ia, ok := v.(*ssa.IndexAddr); return ok && flow.Root(ia.X) == ssa.Value(au.Params[1]) })
+		c.R.Check(!by && isRanged, load.FuncName(au)+": every supplied node is stored", c.pos(store.Pos()), "each supplied node is written to the graph, known or not", "a supplied node can be left out (an existing entry is kept)", w...)
+	}
+
 	c.R.Rule("R17.6", "sibling DAGs: DFS stack marking, back-edge error, full Sort, missing-node error", 8, "a dependency cycle would go undetected by one of the two DAG implementations")
 	for _, typ := range []string{"MapDag", "MapUpgradingDag"} {
 		vis := c.method(pkgDag, typ, "visit")
@@ -430,7 +459,8 @@ func c17(c *Ctx) {
 					var visited []cfgx.Edge
 					for _, b := range srt.Blocks {
 						for _, in := range b.Instrs {
-							if lk, ok := in.(*ssa.Lookup); ok && isBoolMap(lk.X.Type()) {
+							// the map consulted is the one visit() marks (its visited argument)
+							if lk, ok := in.(*ssa.Lookup); ok && isBoolMap(lk.X.Type()) && len(cfgx.CallArgs(vc[0])) >= 4 && lk.X == cfgx.CallArgs(vc[0])[3] {
 								t, _ := cfgx.CondEdges(lk)
 								visited = append(visited, t...)
 							}
